@@ -261,9 +261,17 @@ func (p Prop[P]) Regress(t *testing.T) {
 			if kf == nil {
 				continue // not listed: nothing is suppressed, nothing is claimed
 			}
-			if err := p.ReplayFile(f); err != nil {
+			// reproducers that depend on the engines' own random choices (e.g. which connection becomes the sync
+			// peer) get three tries
+			reproduced := false
+			for try := 0; try < 3 && !reproduced; try++ {
+				reproduced = p.ReplayFile(f) != nil
+			}
+			if reproduced {
 				stats.AddKnown(fmt.Sprintf("KNOWN-FINDING: property=%s %s (%s)", p.ID, kf.What, kf.ID))
 				stats.Count("known_finding_reproduced", 1)
+			} else {
+				stats.Count("known_finding_not_reproduced_this_run", 1)
 			}
 		}
 	}
